@@ -154,6 +154,19 @@ func c16Case(c *mon.Ctx, r *mon.Rand, encs map[m3.Protocol]*encoder, calcs map[m
 			c.Violation(sig+"/"+protoName(p), d)
 		}
 	}
+	// every fifth case first abandons 1-12 batch writes half-way (the transport
+	// refuses data after a budget of bytes): the protocol object is reused all
+	// the same, and what it encodes afterwards must be right
+	if r.Chance(1, 5) {
+		for k, n := 0, r.Range(1, 12); k < n; k++ {
+			b := m3thrift.MetricBatch{Metrics: []m3thrift.Metric{genMetric(r), genMetric(r)}, CommonTags: genTags(r, 3)}
+			if err := enc.abort(b, r.Range(0, 60)); err == nil && c != nil {
+				c.Event("aborted-writes-that-fitted-after-all", 1)
+			} else if c != nil {
+				c.Event("aborted-writes", 1)
+			}
+		}
+	}
 	// a sequence of single metrics, then a batch, through the same protocol objects
 	nm := r.Range(1, 6)
 	for k := 0; k < nm; k++ {
